@@ -1,8 +1,50 @@
 from ._muxprops import make, COMMON_RULE
+from ..mux import FlowSpec
+from . import C12
 
-SPEC = make("C03", "Properties.C03", ['C03_no_overrun', 'C03_window_respected', 'C03_credit_equation', 'C03_one_write_one_credit', 'C03_write_refused_no_effect', 'C03_reachable_inv'],
+SPEC = make("C03", "Properties.C03", ['C03_no_overrun', 'C03_window_respected', 'C03_credit_equation', 'C03_one_write_one_credit', 'C03_write_refused_no_effect', 'C03_reachable_inv',
+                                      'C03_racing_writers_conservation', 'C03_racing_writers_no_overdraw', 'C03_racing_writer_takes_one'],
             [("pair", "single", 0.6), ("pair", "", 0.4)],
             COMMON_RULE + "For this property additionally: single-flow scripts (one established stream, then only reads / "
             "plain, vectored and empty writes / shutdowns and message-by-message deliveries, 40-120 labels) whose read and "
             "write results are also compared with the one-direction flow model Flow/Core.v on which the multi-step "
-            "theorems are proved.", "DESIGN.md §4 C03", flow=True)
+            "theorems are proved; and two writers sharing one stream (legal: poll_write_push takes &self) racing for credit "
+            "with each other, an acknowledge and a close on loom threads (programs Wa|Wb, Wa|Wb|K, Wa|Wb|D, credit 0..2): "
+            "the set of final outcomes over every C11 execution must equal the set computed by Atomic/TwoWriters.v, and every "
+            "outcome must conserve credit.", "DESIGN.md §4 C03", flow=True)
+
+_base = type(SPEC)
+
+
+class C03(_base):
+    def runs(self, tier, seed):
+        return _base.runs(self, tier, seed) + [("loom:two-writers", "release", lambda: C12.two_writer_cases(), None)]
+
+    def cell(self, case, impl):
+        if case.startswith("13 "):
+            return "two-writers/" + "/".join(case.split()[1:])
+        return _base.cell(self, case, impl)
+
+    def trace_violation(self, case, impl):
+        if case.startswith("13 "):
+            w = C12.two_writer_violation(case, impl)
+            return ("racing-writers-credit", w) if w else None
+        return _base.trace_violation(self, case, impl)
+
+    def classify(self, case, impl, model):
+        if case.startswith("13 "):
+            w = C12.two_writer_violation(case, impl)
+            if w:
+                return True, "racing-writers-credit", w
+            return False, "two-writer-outcomes", "loom outcome set of two racing writers differs from the model's"
+        return _base.classify(self, case, impl, model)
+
+    def describe(self, case):
+        if case.startswith("13 "):
+            t = case.split()
+            return "two writers on one stream: credit %s, polls %s and %s, acknowledge %s, close %s (loom, all executions)" % tuple(t[1:6])
+        return _base.describe(self, case)
+
+
+C03.__name__ = "C03"
+SPEC.__class__ = C03
